@@ -1,14 +1,15 @@
 package main
 
 // Area SafeKVCode (C12): WHAT the non-callback methods of mapz.SafeKV do to the guarded map.  The body of each of
-// Get, Has, Contains, Set, SetNx, SetX, Delete, Len, Clear (mapz/safekv.go) is dumped, statement by statement, into the
+// Get, Has, Contains, Set, SetNx, SetX, Delete, Len, Clear, Keys, Values (mapz/safekv.go) is dumped, statement by statement, into the
 // small map-statement language of coq/Lib/MapLang.v (semantics: coq/Model/SafeKVCode.v); coq/Proofs/SafeKVCode.v proves
 // every dumped body equal to the hand model's `sem` (c12_code_is_model).  The lock calls are skipped here: where they
 // stand is the business of the SafeKVSkel area (gen/safekv.go).
 //
 // Translated: `v, ok := s.entries[k]` (also `=`, blanks, one-value form), `s.entries[k] = e`, `delete(s.entries, k)`,
 // `x := len(s.entries)`, `s.entries = make(<map type>[, pure size hint])`, `clear(s.entries)`, `var x T`, `x := e` / `x = e`,
-// `if [init;] cond {..} [else ..]`, `for _, x := range <variadic parameter>`, `return e, ...`; expressions: locals,
+// `if [init;] cond {..} [else ..]`, `for _, x := range <variadic parameter>`, `return e, ...`; for Keys / Values also `x := make([]T, 0[, hint])`,
+// `x = append(x, e)`, `for k[, v] := range s.entries` (body must not write the map), `return x`; expressions: locals,
 // parameters, true/false, !e, parentheses.  Go's scoping is applied (a `:=` in an if-header declares a NEW variable that
 // shadows an outer one of the same name).  Everything else makes the area fail; gen/main.go then installs the validated
 // default (gen/defaults/SafeKVCode.v) and the tie counts as degraded.
@@ -31,6 +32,7 @@ var skcMethods = []struct {
 }{
 	{"Clear", 0, false, 0}, {"Contains", 1, false, 1}, {"Delete", 0, true, 0}, {"Get", 1, false, 2}, {"Has", 1, false, 1},
 	{"Len", 0, false, 1}, {"Set", 2, false, 0}, {"SetNx", 2, false, 1}, {"SetX", 2, false, 1},
+	{"Keys", 0, false, 1}, {"Values", 0, false, 1},
 }
 
 type skc struct {
@@ -39,6 +41,8 @@ type skc struct {
 	vararg            string         // name of the variadic parameter ("" if none)
 	scopes            []map[string]int
 	nvars             int
+	slices            map[int]bool // locals that hold a slice (own name space in the target language)
+	inRange           int          // > 0 inside `for .. := range s.entries`: the body must not write the map
 	err               error
 }
 
@@ -128,6 +132,9 @@ func (c *skc) exp(e ast.Expr) string {
 		return c.exp(n.X)
 	case *ast.Ident:
 		if v, ok := c.lookup(n.Name); ok {
+			if c.slices[v] {
+				c.fail("slice variable %s used as a value", n.Name)
+			}
 			return fmt.Sprintf("EVar %d", v)
 		}
 		if i, ok := c.args[n.Name]; ok {
@@ -149,6 +156,12 @@ func (c *skc) exp(e ast.Expr) string {
 		c.fail("expression %T not understood", e)
 	}
 	return "EZero"
+}
+
+func (c *skc) noWrite() {
+	if c.inRange > 0 {
+		c.fail("write to the map inside a range over it not understood")
+	}
 }
 
 func optVar(v int) string {
@@ -215,6 +228,13 @@ func (c *skc) stmt(st ast.Stmt) string {
 	if c.err != nil {
 		return ""
 	}
+	if c.inRange > 0 {
+		// the proofs know one shape of a loop over the map: a body of appends and plain assignments
+		if _, ok := st.(*ast.AssignStmt); !ok {
+			c.fail("statement %T inside a range over the map not understood", st)
+			return ""
+		}
+	}
 	switch n := st.(type) {
 	case *ast.EmptyStmt:
 		return ""
@@ -228,9 +248,11 @@ func (c *skc) stmt(st ast.Stmt) string {
 			return ""
 		}
 		if c.isBuiltin(call.Fun, "delete") && len(call.Args) == 2 && c.isEntries(call.Args[0]) {
+			c.noWrite()
 			return "SDelete (" + c.exp(call.Args[1]) + ")"
 		}
 		if c.isBuiltin(call.Fun, "clear") && len(call.Args) == 1 && c.isEntries(call.Args[0]) {
+			c.noWrite()
 			return "SClear"
 		}
 		c.fail("call statement not understood")
@@ -296,10 +318,12 @@ func (c *skc) stmt(st ast.Stmt) string {
 		// s.entries[k] = e / s.entries = make(..)
 		if len(n.Lhs) == 1 && !def {
 			if ix, ok := n.Lhs[0].(*ast.IndexExpr); ok && c.isEntries(ix.X) {
+				c.noWrite()
 				k := c.exp(ix.Index)
 				return "SStore (" + k + ") (" + c.exp(rhs) + ")"
 			}
 			if c.isEntries(n.Lhs[0]) {
+				c.noWrite()
 				if call, ok := rhs.(*ast.CallExpr); ok && c.isBuiltin(call.Fun, "make") && (len(call.Args) == 1 || (len(call.Args) == 2 && c.pureHint(call.Args[1]))) {
 					switch call.Args[0].(type) {
 					case *ast.MapType, *ast.IndexListExpr, *ast.IndexExpr, *ast.Ident:
@@ -312,6 +336,10 @@ func (c *skc) stmt(st ast.Stmt) string {
 		}
 		// [v,] [ok] :=/= s.entries[k]
 		if ix, ok := rhs.(*ast.IndexExpr); ok && c.isEntries(ix.X) && (len(n.Lhs) == 1 || len(n.Lhs) == 2) {
+			if c.inRange > 0 {
+				c.fail("index of the map inside a range over it not understood")
+				return ""
+			}
 			k := c.exp(ix.Index) // the key is evaluated before the targets are declared
 			xv, xok := c.target(n.Lhs[0], def), -1
 			if len(n.Lhs) == 2 {
@@ -321,6 +349,41 @@ func (c *skc) stmt(st ast.Stmt) string {
 		}
 		if len(n.Lhs) != 1 {
 			c.fail("multi-value assignment not understood")
+			return ""
+		}
+		// x := make([]T, 0[, pure hint])
+		if call, ok := rhs.(*ast.CallExpr); ok && c.isBuiltin(call.Fun, "make") && (len(call.Args) == 2 || (len(call.Args) == 3 && c.pureHint(call.Args[2]))) {
+			at, ok := call.Args[0].(*ast.ArrayType)
+			lit, ok2 := call.Args[1].(*ast.BasicLit)
+			if ok && at.Len == nil && ok2 && lit.Kind == token.INT && lit.Value == "0" {
+				x := c.target(n.Lhs[0], def)
+				if x < 0 {
+					return ""
+				}
+				if !def && !c.slices[x] {
+					c.fail("make assigned to a non-slice variable")
+				}
+				c.slices[x] = true
+				return fmt.Sprintf("SMakeSlice %d", x)
+			}
+			c.fail("make form not understood")
+			return ""
+		}
+		// x = append(x, e)
+		if call, ok := rhs.(*ast.CallExpr); ok && c.isBuiltin(call.Fun, "append") {
+			id, ok := n.Lhs[0].(*ast.Ident)
+			a0, ok2 := (ast.Expr)(nil), false
+			if len(call.Args) == 2 && call.Ellipsis == token.NoPos {
+				a0, ok2 = call.Args[0], true
+			}
+			if ok && ok2 && !def {
+				if id0, ok := a0.(*ast.Ident); ok && id0.Name == id.Name {
+					if x, ok := c.lookup(id.Name); ok && c.slices[x] {
+						return fmt.Sprintf("SAppend %d (%s)", x, c.exp(call.Args[1]))
+					}
+				}
+			}
+			c.fail("append form not understood (expected `x = append(x, e)` on a slice made here)")
 			return ""
 		}
 		// x := len(s.entries)
@@ -366,6 +429,23 @@ func (c *skc) stmt(st ast.Stmt) string {
 	case *ast.BlockStmt:
 		return c.block(n)
 	case *ast.RangeStmt:
+		if c.isEntries(n.X) {
+			if n.Tok != token.DEFINE || n.Key == nil {
+				c.fail("range form over s.%s not understood", c.entries)
+				return ""
+			}
+			c.push()
+			defer c.pop()
+			kx := c.target(n.Key, true)
+			vx := -1
+			if n.Value != nil {
+				vx = c.target(n.Value, true)
+			}
+			c.inRange++
+			b := c.block(n.Body)
+			c.inRange--
+			return fmt.Sprintf("SRangeMap %s %s (%s)", optVar(kx), optVar(vx), b)
+		}
 		id, ok := n.X.(*ast.Ident)
 		_, shadowed := c.lookup(c.vararg)
 		if !ok || c.vararg == "" || id.Name != c.vararg || shadowed {
@@ -388,6 +468,13 @@ func (c *skc) stmt(st ast.Stmt) string {
 		}
 		return fmt.Sprintf("SForArgs %d (%s)", x, c.block(n.Body))
 	case *ast.ReturnStmt:
+		if len(n.Results) == 1 {
+			if id, ok := n.Results[0].(*ast.Ident); ok {
+				if x, ok := c.lookup(id.Name); ok && c.slices[x] {
+					return fmt.Sprintf("SReturnSlice %d", x)
+				}
+			}
+		}
 		var es []string
 		for _, r := range n.Results {
 			es = append(es, c.exp(r))
@@ -452,7 +539,7 @@ func genSafeKVCode(repo string) (string, error) {
 		if _, ok := fd.Recv.List[0].Type.(*ast.StarExpr); !ok || len(fd.Recv.List[0].Names) != 1 {
 			return "", fmt.Errorf("SafeKV.%s: receiver not understood", m.name)
 		}
-		c := &skc{recv: fd.Recv.List[0].Names[0].Name, entries: entries, mu: mu, args: map[string]int{}}
+		c := &skc{recv: fd.Recv.List[0].Names[0].Name, entries: entries, mu: mu, args: map[string]int{}, slices: map[int]bool{}}
 		for _, fl := range fd.Type.Params.List {
 			if len(fl.Names) == 0 {
 				return "", fmt.Errorf("SafeKV.%s: unnamed parameter", m.name)
